@@ -29,12 +29,14 @@ struct Cfg {
   string ip;         // initial priority per slot: '0' defined without priority, '1'..'9', '-' not defined
   int dt = 1;        // seconds the clock advances before each getNextPoll
   int warm = 0;      // unperturbed selections before the explored history (drift of g_lastPollOrder)
+  int silent = -1;   // >= 0: every selected message gets an answer stored except the one in this slot (9 = all answer)
   int chain = -1;    // slot whose initial definition is a CHAINED message (two part IDs): one poll entry like any other
   string str() const {
     char b[96];
     snprintf(b, sizeof(b), "n=%d;ip=%s;dt=%d;warm=%d", n, ip.c_str(), dt, warm);
     string r = b;
     if (chain >= 0) r += ";chain=" + std::to_string(chain);
+    if (silent >= 0) r += ";silent=" + std::to_string(silent);
     return r;
   }
 };
@@ -165,7 +167,19 @@ class World {
   }
   Message* next() {
     g_now += m_cfg.dt;
-    return m_map->getNextPoll();
+    Message* m = m_map->getNextPoll();
+    // the polled device answers (the bus handler stores the answer in the message) - except the device of slot
+    // `silent`, which never does: whether a message has a value must not influence how often it is selected
+    if (m != nullptr && m_cfg.silent >= 0 && slotOf(m) != m_cfg.silent) {
+      ebusd::MasterSymbolString ms;
+      std::istringstream in("");
+      if (m->prepareMaster(0, 0x31, ebusd::SYN, ';', &in, &ms) == ebusd::RESULT_OK) {
+        ebusd::SlaveSymbolString ss;
+        ss.push_back(1); ss.push_back(static_cast<ebusd::symbol_t>(g_now & 0x7f));
+        m->storeLastData(ms, ss);
+      }
+    }
+    return m;
   }
   int slotOf(const Message* m) const {
     for (int k = 0; k < m_cfg.n; k++) if (m_slot[k] == m && m != nullptr) return k;
